@@ -475,7 +475,8 @@ def run_check(prop, units, tier, seed, level, technique_text, trusted_base, repl
             "obligations_by_label": by_label,
             "solver_seconds": round(solver_s, 3),
             "paths": sum(r["paths"] for r in results),
-            "stand_ins": extra,
+            "stand_ins": [dict(e, violations=e.get("violations", [])[:3], known=e.get("known", [])[:3],
+                               n_violations=len(e.get("violations", [])), n_known=len(e.get("known", []))) for e in extra],
             "exit_code": exit_code,
             "design_ref": design_ref,
         },
